@@ -81,7 +81,20 @@ class SdRunner(ScenarioRunner):
         return simulation_results
 
 
-    def run_scenario_step(self, step, settings, scenario_manager, scenarios, equations):
+    def __apply_step_settings(self, sc, scenario_manager, scenario, settings):
+        if settings:
+            if scenario_manager in settings:
+                if scenario in settings[scenario_manager]:
+                    if "constants" in settings[scenario_manager][scenario]:
+                        constants = settings[scenario_manager][scenario]["constants"]
+                        for name, value in constants.items():
+                            sc.sd_simulation.change_equation(name=name, value=value)
+                    if "points" in settings[scenario_manager][scenario]:
+                        points = settings[scenario_manager][scenario]["points"]
+                        for name, points in points.items():
+                            sc.sd_simulation.change_points(name=name, value=points)
+
+    def run_scenario_step(self, step, settings, scenario_manager, scenarios, equations, previous_steps=None):
         """
         Run a step of the given scenarios and return data for the given equations and agents
         """    
@@ -107,20 +120,14 @@ class SdRunner(ScenarioRunner):
                 for name, points in sc.points.items():
                     sc.sd_simulation.change_points(name=name, value=points)
                 sc.sd_simulation.change_runspecs(starttime=sc.starttime,stoptime=sc.stoptime,dt=sc.dt)
+                # a session that continues without its live simulation (its instance was restored from external state):
+                # take the earlier steps again with their settings, so that this step builds on the same history
+                for previous_step, previous_settings in (previous_steps or []):
+                    if previous_step < step:
+                        self.__apply_step_settings(sc, scenario_manager, scenario, previous_settings)
+                        sc.sd_simulation.start(output=["frame"], start=previous_step, until=previous_step, equations=equations)
 
-            # now the settings relevant for this step
-            
-            if settings:
-                if scenario_manager in settings:
-                    if scenario in settings[scenario_manager]:
-                        if "constants" in settings[scenario_manager][scenario]:
-                            constants = settings[scenario_manager][scenario]["constants"]
-                            for name, value in constants.items():
-                                sc.sd_simulation.change_equation(name=name, value=value)
-                        if "points" in settings[scenario_manager][scenario]:        
-                            points = settings[scenario_manager][scenario]["points"] 
-                            for name, points in points.items():
-                                sc.sd_simulation.change_points(name=name, value=points)
+            self.__apply_step_settings(sc, scenario_manager, scenario, settings)
 
             sc.result = sc.sd_simulation.start(output=["frame"], start=step, until=step,equations=equations)
 
